@@ -475,6 +475,9 @@ pub fn run(rc: &mut RunCtx) {
                 }
             }
         }
+        for k in compositions.keys() {
+            res.tags.insert(format!("realised-batch:{}", k));
+        }
         res.obs("batched_orders_realised", realised_orders);
         res.obs("distinct_batch_compositions", compositions.len() as u64);
         res.nontrivial = realised_orders > 0;
